@@ -315,3 +315,25 @@ def run_nested(docA, docB, kA, kB):
     finally:
         b_resume.set()
         shutil.rmtree(tmp, ignore_errors=True)
+
+
+_FRESH_CALLS = r"""
+import sys, json
+sys.path.insert(0, %r); sys.path.insert(0, %r)
+import sched
+print(json.dumps(sched.list_calls(sys.argv[1])))
+"""
+
+
+def list_calls_fresh(docname):
+    """list_calls in a fresh interpreter: the calls of the FIRST encode of a process (tables built on first use,
+    registries filled, caches empty)."""
+    import json
+    import subprocess
+    from common import REPO_SRC
+    here = os.path.dirname(os.path.abspath(__file__))
+    p = subprocess.run([sys.executable, "-c", _FRESH_CALLS % (REPO_SRC, here), docname], stdout=subprocess.PIPE, stderr=subprocess.PIPE,
+                       text=True, timeout=300, env={**os.environ, "PYTHONHASHSEED": "0"})
+    if p.returncode != 0:
+        raise RuntimeError("fresh call listing failed: " + p.stderr[-1500:])
+    return [tuple(x) for x in json.loads(p.stdout.strip().splitlines()[-1])]
